@@ -88,6 +88,45 @@ def branch_events(layout_event):
     return out
 
 
+def tlaps_lemmas(ctx):
+    """Unbounded sizes: TLAPS proves the node step of the repaired packing (trunk
+    and child boxes inside the grown box) for all integers; the ungrown variant
+    must fail (binding self-test).  Independent of the code under test."""
+    import os
+    import shutil
+    import subprocess
+    import tempfile
+    import time
+    from lib import tlc
+    src = os.path.join(tlc.SPEC_DIR, "proofs", "PackingLemmas.tla")
+    wdir = tempfile.mkdtemp(prefix="verif-tlaps-")
+    try:
+        text = open(src, encoding="utf-8").read()
+        broken = text.replace("box == w + b + a ", "box == w ").replace("trunk == b + tx ", "trunk == tx ")
+        if broken == text:
+            raise tlc.MachineryError("PackingLemmas.tla: the self-test variant could not be derived")
+        out = {}
+        for name, body in (("proof", text), ("ungrown", broken)):
+            os.makedirs(os.path.join(wdir, name))
+            with open(os.path.join(wdir, name, "PackingLemmas.tla"), "w", encoding="utf-8") as handle:
+                handle.write(body)
+            start = time.time()
+            proc = subprocess.run(["tlapm", "PackingLemmas.tla"], cwd=os.path.join(wdir, name), capture_output=True,
+                                  text=True, timeout=900, check=False)
+            log = proc.stdout + proc.stderr
+            out[name] = {"proved": "obligations proved" in log and "failed" not in log, "wall_s": round(time.time() - start, 1)}
+            if name == "proof" and not out[name]["proved"]:
+                raise tlc.MachineryError(f"tlapm did not prove PackingLemmas.tla: {log[-600:]}")
+            if name == "ungrown" and out[name]["proved"]:
+                raise tlc.MachineryError("self-test: tlapm proved the packing lemma without the growth of the box")
+    finally:
+        shutil.rmtree(wdir, ignore_errors=True)
+    ctx.extra["tlaps"] = {"module": "spec/proofs/PackingLemmas.tla", "theorems": ["GrowBoxHoldsTrunkAndChildren",
+                          "SpacingClearsChildTrunks"], "results": out}
+    ctx.note("TLAPS: the packing step keeps trunk and child boxes inside the grown box for all integer sizes; "
+             "the ungrown variant is refuted")
+
+
 def branches_model(ctx, sessions, thorough):
     """Beyond the listed properties, never gating: gene-node placement against
     Branches.tla.  TLC checks the lemmas of the orientation-neutral computation
@@ -143,6 +182,7 @@ def run(ctx):
     mc.refuted(ctx, "Packing", "ShiftBug=TRUE (right subtree not shifted by the extent of the left one)",
                constants=dict(consts, ShiftBug="TRUE"), invariants=["BoxesInv", "TrunksInv"],
                mc_text="MCShapes == BinShapesUpTo(3)\nMCTrunks == {<<0, 32>>, <<96, 64>>}")
+    tlaps_lemmas(ctx)
     ctx.stage("E1 packing model")
 
     costs = [gen.cost(0, 1, 1, 1, 1)]
